@@ -88,7 +88,7 @@ func newWorker(e *env, role string) *worker {
 }
 
 func (w *worker) start(f func()) { atomic.StoreInt32(&w.busy, 1); w.cmds <- f }
-func (w *worker) idle() bool      { return atomic.LoadInt32(&w.busy) == 0 }
+func (w *worker) idle() bool     { return atomic.LoadInt32(&w.busy) == 0 }
 
 // park point expected after a step of the model
 var appPark = map[string]string{"SubCall": "sub.resume.send", "SubSend": "sub.resume.sent", "SubReg": "",
@@ -148,7 +148,7 @@ func runReplay(b behaviour) caseResult {
 	// one model step
 	do := func(i int, s step) string {
 		switch {
-		case s.P == "env":
+		case s.P == "env" && s.A != "Fault":
 			if s.A == "Outcome" {
 				pubOutcome = s.xs()
 			}
@@ -225,8 +225,62 @@ func runReplay(b behaviour) caseResult {
 				}
 			}
 			return ""
+		case s.P == "env" && s.A == "Fault":
+			var f struct {
+				K string `json:"k"`
+			}
+			json.Unmarshal(s.X, &f)
+			e.ctl.note("env", "fault", map[string]any{"kind": f.K})
+			switch f.K {
+			case "reset":
+				e.px.reset()
+			case "restart":
+				e.px.setMode("refuse")
+				e.px.reset()
+				e.srv.do("restart")
+				e.px.reset()
+				e.px.setMode("pass")
+			default:
+				return fmt.Sprintf("step %d: fault %s is not replayed under the gate", i, f.K)
+			}
+			return ""
 		case s.P == "mon":
-			return fmt.Sprintf("step %d: monitor steps are not replayed in this mode", i)
+			since := e.ctl.arrivals("mon")
+			spontaneous := s.A == "Err" // the monitor leaves its select by itself when the loss is reported
+			if s.A == "Ctx" || s.A == "Exit" {
+				e.ctl.release("mon")
+				return ""
+			}
+			if spontaneous {
+				if p := e.ctl.parkedAt("mon"); p != nil {
+					return "" // already there
+				}
+				since = e.ctl.arrivals("mon") - 0
+				if _, ok := e.ctl.waitPark("mon", since-0, nil, stepTimeout); !ok {
+					if e.ctl.parkedAt("mon") == nil {
+						return fmt.Sprintf("step %d mon Err: the monitor did not react to the connection loss within %v", i, stepTimeout)
+					}
+				}
+				return ""
+			}
+			if !e.ctl.release("mon") {
+				return fmt.Sprintf("step %d mon %s: the monitor is not parked", i, s.A)
+			}
+			if s.A == "Resume" {
+				return ""
+			}
+			// an arm may take round trips; blocked = blocked on a lock / channel (goroutine dump)
+			if b := e.waitOrBlocked("mon", since, func() bool { return false }, ""); b != "" {
+				return fmt.Sprintf("BLOCKED step %d mon %s: %s", i, s.A, b)
+			}
+			if s.A == "Done" {
+				e.ctl.waitPark("mon", since, nil, 500*time.Millisecond) // parks only when it has to resume
+				return ""
+			}
+			if _, ok := e.ctl.waitPark("mon", since, nil, time.Second); !ok {
+				return fmt.Sprintf("step %d mon %s: no arrival at the next hook within %v", i, s.A, stepTimeout)
+			}
+			return ""
 		default:
 			w := apps[s.P]
 			since := e.ctl.arrivals(s.P)
@@ -425,6 +479,10 @@ func runReplay(b behaviour) caseResult {
 					bs = append(bs, brief(g))
 					if strings.Contains(g, "monitorSubscriptions") && strings.Contains(g, "[select") {
 						key = "publish-loop-paused-with-registered-subscription"
+						if drift == "" && !b.LostResume {
+							// the schedule was driven exactly and the as-is model ends with a running loop
+							key = "publish-loop-not-resumed-where-specification-resumes"
+						}
 					}
 				}
 				res.Status, res.Key = "violation", key
@@ -502,7 +560,9 @@ func (e *env) waitOrBlocked(role string, since int, done func() bool, fn string)
 		}
 		gs := clientGoroutines()
 		pat := ").monitorSubscriptions("
-		if role != "loop" {
+		if role == "mon" {
+			pat = "(*Client).monitor("
+		} else if role != "loop" {
 			pat = "cmd/clientconn"
 		}
 		if blockedOnSync(gs, pat) {
